@@ -115,13 +115,22 @@ func (e *Engine) verifyFunc(ct *Contract) (res *FuncVC) {
 		res.ParamT = append(res.ParamT, p.Type())
 	}
 	fr.params = args
+	// a closure verified on its own: its captured variables are unknown cells
+	var freevars []Val
+	for _, fv := range fn.FreeVars {
+		name := q("fv_" + fv.Name())
+		c.emit(fmt.Sprintf("(declare-const %s Int)", name))
+		c.assume("true", fmt.Sprintf("(and (> %s 0) (< %s %s))", name, name, st.alloc))
+		freevars = append(freevars, c.mkVal(fv.Type(), name))
+		fr.vals[fv] = freevars[len(freevars)-1]
+	}
 	entry := st.clone()
 	env := c.specEnv(fr, st, entry, nil)
 	for _, cl := range ct.byKind("requires") {
 		c.assume("true", c.specBool(env, cl.Expr))
 	}
 	preLen := len(c.pre)
-	rst, rvals := c.execBody(fr, st, args, nil)
+	rst, rvals := c.execBody(fr, st, args, freevars)
 	// results for model extraction
 	for i, rv := range rvals {
 		if rv.S != "" {
